@@ -337,6 +337,26 @@ func classify(err error) string {
 type obs struct {
 	kind string
 	tc   int64
+	hs   string // rt=<0|1> wt=<0|1> bl=<0|1>: timer handles and backlog read under the same lock ("" if unknown)
+}
+
+func handles(st nbio.VerifConnState) string {
+	b := func(x bool) int {
+		if x {
+			return 1
+		}
+		return 0
+	}
+	return fmt.Sprintf("rt=%d wt=%d bl=%d", b(st.RTimer), b(st.WTimer), b(!st.Closed && len(st.Items) > 0))
+}
+
+// hsOf: the timer handles and the backlog are compared with the model for the cases whose write path the model
+// follows exactly (virtual descriptors: scripted kernel answers)
+func hsOf(kind string, o obs) string {
+	if kind != "virt" || o.hs == "" {
+		return ""
+	}
+	return " " + o.hs
 }
 
 func (o obs) ann() string {
@@ -388,24 +408,25 @@ func (e *env) observe() obs {
 	if c == nil {
 		select {
 		case <-e.rec.ch: // a dialing conn the harness has not been handed yet, already closed
-			return obs{e.rec.kind, e.rec.tc}
+			return obs{kind: e.rec.kind, tc: e.rec.tc}
 		default:
 		}
-		return obs{"open", 0}
+		return obs{kind: "open"}
 	}
-	if !c.VerifState().Closed {
+	st := c.VerifState()
+	if !st.Closed {
 		select {
 		case <-e.rec.ch: // notification without the flag: cannot happen for nbio.Conn, but never block on it
-			return obs{e.rec.kind, e.rec.tc}
+			return obs{e.rec.kind, e.rec.tc, handles(st)}
 		default:
 		}
-		return obs{"open", 0}
+		return obs{"open", 0, handles(st)}
 	}
 	select {
 	case <-e.rec.ch:
-		return obs{e.rec.kind, e.rec.tc}
+		return obs{e.rec.kind, e.rec.tc, handles(st)}
 	case <-time.After(3 * time.Second):
-		return obs{"lost", e.us()}
+		return obs{"lost", e.us(), handles(st)}
 	}
 }
 
@@ -573,7 +594,7 @@ func runCase(cr *caseRun) {
 					}
 				}
 			}
-			fmt.Fprintf(&cr.out, "> %s at=%d st=%s\nR st=%s overdue=-\n", strings.Join(ws, " "), at, st.ann(), st.kind)
+			fmt.Fprintf(&cr.out, "> %s at=%d st=%s\nR st=%s overdue=-%s\n", strings.Join(ws, " "), at, st.ann(), st.kind, hsOf(kind, st))
 			shape += "|Q:" + st.kind
 			continue
 		}
@@ -598,7 +619,7 @@ func runCase(cr *caseRun) {
 		if ws[1] == "dial" {
 			extra = " res=" + e.dialRes
 		}
-		fmt.Fprintf(&cr.out, "> %s%s at=%d at2=%d st=%s post=%s\nR st=%s post=%s\n", strings.Join(ws, " "), extra, t0, t1, st.ann(), post.ann(), st.kind, post.kind)
+		fmt.Fprintf(&cr.out, "> %s%s at=%d at2=%d st=%s post=%s\nR st=%s post=%s%s\n", strings.Join(ws, " "), extra, t0, t1, st.ann(), post.ann(), st.kind, post.kind, hsOf(kind, post))
 		shape += "|" + strings.Join(ws[1:len(ws)-1], ":") + ">" + st.kind + ">" + post.kind
 		cr.stats["op:"+ws[1]]++
 	}
